@@ -124,7 +124,7 @@ def run_shard(ctx):
     K = ctx.scale(oracle.K_QUICK, oracle.K_THOROUGH)
     if ctx.shard == 0:
         run_corpus(ctx, K)
-    n = ctx.scale(100, 4000)
+    n = ctx.scale(100, 1200)
     cfg = programs.Cfg() if ctx.quick() else programs.Cfg(max_funcs=4, loop_stmts=4, func_stmts=4)
     hyp_search(ctx, programs.program_cases(cfg), lambda c: check_case(c, ctx.stats, K), n)
     # a second family: programs without functions whose main code terminates
